@@ -64,6 +64,9 @@ struct ompi_predefined_communicator_t ompi_mpi_comm_null, ompi_mpi_comm_world, o
 #ifndef NOPS
 #define NOPS 3
 #endif
+#ifndef NQ
+#define NQ 0
+#endif
 #define MSGLEN 16
 #define NTOT (NTAG * TESTED + DYN)
 #define NRQ (NTAG * POSTED + NSTEP * NOPS)
@@ -107,10 +110,12 @@ int MPI_Start(MPI_Request *req)
 }
 int MPI_Startall(int n, MPI_Request reqs[]) { for (int i = 0; i < n; i++) MPI_Start(&reqs[i]); return MPI_SUCCESS; }
 static int last_isend_tag = -1, order_bad, last_send_posted = -1, last_recv_posted = -1;
+static int req_of_tag[NSTEP * NOPS + 1], posts_of_tag[NSTEP * NOPS + 1];   /* one-sided operation k carries MPI tag k (next_tag from 0) */
+#define NOTE_POST(tag) do { if ((tag) >= 0 && (tag) < NSTEP * NOPS) { req_of_tag[tag] = n_rq; posts_of_tag[tag]++; } } while (0)
 int MPI_Isend(const void *buf, int count, MPI_Datatype dt, int dst, int tag, MPI_Comm comm, MPI_Request *req)
-{ (void)buf; (void)count; (void)dt; (void)dst; (void)comm; if (tag <= last_isend_tag) order_bad = 1; last_isend_tag = tag; *req = new_req(K_ISEND, tag, 1); return MPI_SUCCESS; }
+{ (void)buf; (void)count; (void)dt; (void)dst; (void)comm; if (tag <= last_isend_tag) order_bad = 1; last_isend_tag = tag; NOTE_POST(tag); *req = new_req(K_ISEND, tag, 1); return MPI_SUCCESS; }
 int MPI_Irecv(void *buf, int count, MPI_Datatype dt, int src, int tag, MPI_Comm comm, MPI_Request *req)
-{ (void)buf; (void)count; (void)dt; (void)src; (void)comm; *req = new_req(K_IRECV, tag, 1); return MPI_SUCCESS; }
+{ (void)buf; (void)count; (void)dt; (void)src; (void)comm; NOTE_POST(tag); *req = new_req(K_IRECV, tag, 1); return MPI_SUCCESS; }
 int MPI_Send(const void *buf, int count, MPI_Datatype dt, int dst, int tag, MPI_Comm comm) { (void)buf; (void)count; (void)dt; (void)dst; (void)tag; (void)comm; return MPI_SUCCESS; }
 int MPI_Get_count(const MPI_Status *st, MPI_Datatype dt, int *count) { (void)dt; *count = (int)st->_ucount; return MPI_SUCCESS; }
 
@@ -128,7 +133,11 @@ int MPI_Testsome(int incount, MPI_Request reqs[], int *outcount, int indices[], 
         if (id < 0 || id >= NRQ) { mpi_misuse = 1; continue; }
         if (rq_state[id] != 1) continue;
         any_active = 1;
+#ifdef ONESTEP
+        if (testsome_calls > 1) continue;              /* one-step query: one MPI_Testsome with completions, the next one reports none */
+#else
         if (testsome_calls > 2 * NSTEP) continue;      /* bound: after 2 rounds per step nothing else completes (progress returns) */
+#endif
         if (!IN_BOOL()) continue;
         rq_state[id] = 0; rq_completions[id]++;
         indices[out] = i; statuses[out].MPI_TAG = rq_tag[id]; statuses[out].MPI_SOURCE = 1; statuses[out].MPI_ERROR = 0; statuses[out]._ucount = 8; statuses[out]._cancelled = 0;
@@ -188,20 +197,23 @@ static int am_cb(parsec_comm_engine_t *ce, parsec_ce_tag_t tag, void *msg, size_
     if (rq_state[RID(ts->reqs[off / MSGLEN])] != 0) am_bad = 1;
     return 1;
 }
-static int op_kind[NOP], op_done[NOP], n_op;
+static int op_kind[NOP], op_done[NOP], n_op, args_bad; static char rcb_none[1];   /* empty remote callback data (non-NULL: memcpy argument) */
+static mpi_funnelled_mem_reg_handle_t LREG, RREG; static char lmem[8];
 static int os_cb(parsec_comm_engine_t *ce, parsec_ce_mem_reg_handle_t lreg, ptrdiff_t ldispl, parsec_ce_mem_reg_handle_t rreg,
                  ptrdiff_t rdispl, size_t size, int remote, void *cb_data)
 {
     (void)ce; (void)lreg; (void)ldispl; (void)rreg; (void)rdispl; (void)size; (void)remote;
     int k = (int)((int *)cb_data - op_kind);
     if (k < 0 || k >= NOP) { am_bad = 1; return 1; }
+#ifdef ONESTEP      /* operation k was submitted with (lreg, ldispl = k, rreg, rdispl = 10 + k, 8 bytes, remote 1) */
+    if (lreg != (parsec_ce_mem_reg_handle_t)&LREG || rreg != (parsec_ce_mem_reg_handle_t)&RREG || ldispl != k || rdispl != 10 + k || size != 8 || remote != 1) args_bad = 1;
+#endif
     op_done[k]++;
     return 1;
 }
 static int stub_send_am(parsec_comm_engine_t *ce, parsec_ce_tag_t tag, int remote, void *addr, size_t size)
 { (void)ce; (void)tag; (void)remote; (void)addr; (void)size; return 1; }
 
-static mpi_funnelled_mem_reg_handle_t LREG, RREG; static char lmem[8];
 
 /* ---- invariant of the request arrays between two progress calls */
 static void check_arrays(void)
@@ -315,6 +327,71 @@ int main(void)
     VASSERTM(n_rq == NTAG * POSTED, "one persistent receive per posted slot");
     check_arrays();
 
+
+#ifdef ONESTEP
+    /* ---- ONE-STEP query (inductive style, no history).  Pre-state: the request arrays as built above
+     * plus a dynamic region filled with exactly DYN active one-sided requests with distinct
+     * callbacks/arguments (installed through the real direct-post paths of mpi_no_thread_put /
+     * mpi_no_thread_get; even operations are puts, odd ones gets) and NQ (0..1) further put that finds
+     * the region full and is queued.  Then ONE real mpi_no_thread_progress; its first MPI_Testsome
+     * completes a solver-chosen subset of ALL active requests (AM and dynamic), indices ascending as
+     * MPI returns them, the second one reports no completion. */
+    for (int k = 0; k < DYN + NQ; k++) {
+        int is_get = (k < DYN) && (k % 2);          /* the queued extra operation is a put */
+        op_kind[k] = is_get ? K_IRECV : K_ISEND; n_op++;
+        if (is_get) mpi_no_thread_get(&parsec_ce, &LREG, k, &RREG, 10 + k, 8, 1, os_cb, &op_kind[k], 0, rcb_none, 0);
+        else        mpi_no_thread_put(&parsec_ce, &LREG, k, &RREG, 10 + k, 8, 1, os_cb, &op_kind[k], 0, rcb_none, 0);
+    }
+    VASSERTM(mpi_funnelled_last_active_req == NTOT, "pre-state: the dynamic region is full");
+    for (int k = 0; k < DYN; k++) VASSERTM(posts_of_tag[k] == 1 && array_of_requests[NTAG * TESTED + k] == &RQ[req_of_tag[k]] && array_of_callbacks[NTAG * TESTED + k].cb_data == (void *)&op_kind[k],
+                                           "pre-state: operation k is active in dynamic slot k with its own callback record");
+#if NQ > 0
+    VASSERTM(posts_of_tag[DYN] == 0 && !parsec_list_nolock_is_empty(&mpi_funnelled_dynamic_sendreq_fifo), "pre-state: the extra put is queued, not posted");
+#endif
+    check_arrays();
+    { int am_before = 0; for (int t = 0; t < NTAG; t++) am_before += am_calls[t];
+      int ret = mpi_no_thread_progress(&parsec_ce);
+      int ncomp = 0, nam = 0, namcalls = 0;
+      for (int i = 0; i < NTAG * POSTED; i++) nam += rq_completions[i];
+      for (int t = 0; t < NTAG; t++) namcalls += am_calls[t];
+      VASSERTM(namcalls - am_before == nam, "every completed active-message receive invokes the callback exactly once");
+      VASSERTM(!args_bad, "a one-sided completion callback receives the arguments of its own operation");
+      for (int k = 0; k < DYN; k++) {
+          int id = req_of_tag[k], completed = rq_completions[id], seen = 0, slot = -1;
+          for (int i = NTAG * TESTED; i < NTOT; i++) if (array_of_requests[i] == &RQ[id]) { seen++; slot = i; }
+          if (completed) {
+              ncomp++;
+              VASSERTM(op_done[k] == 1, "the callback of a completed one-sided request runs exactly once");
+              VASSERTM(seen == 0, "a completed request is no longer in the request array");
+          } else {
+              VASSERTM(op_done[k] == 0, "the callback of a pending request does not run");
+              VASSERTM(seen == 1, "a request that did not complete is still in the request array, exactly once");
+              VASSERTM(seen != 1 || (slot < mpi_funnelled_last_active_req && rq_state[id] == 1), "a pending request stays below last_active_req and active");
+              VASSERTM(seen != 1 || (array_of_callbacks[slot].cb_data == (void *)&op_kind[k] && array_of_callbacks[slot].storage1 == slot &&
+                                     array_of_callbacks[slot].type == MPI_FUNNELLED_TYPE_ONESIDED && array_of_callbacks[slot].onesided.fct == os_cb &&
+                                     array_of_callbacks[slot].onesided.tag == k && array_of_callbacks[slot].onesided.ldispl == k &&
+                                     array_of_callbacks[slot].onesided.rdispl == 10 + k),
+                       "the callback record travelling with a pending request is its own and names the slot it now occupies");
+          }
+      }
+      int posted = 0;
+#if NQ > 0
+      posted = posts_of_tag[DYN];
+      VASSERTM(posted == (ncomp > 0 ? 1 : 0), "the queued request is posted exactly once as soon as (and only if) a dynamic slot was freed");
+      VASSERTM((posted == 1) == parsec_list_nolock_is_empty(&mpi_funnelled_dynamic_sendreq_fifo), "a posted request leaves the queue, an unposted one stays");
+      if (posted == 1) { int seen = 0; for (int i = NTAG * TESTED; i < NTOT; i++) if (array_of_requests[i] == &RQ[req_of_tag[DYN]] && array_of_callbacks[i].cb_data == (void *)&op_kind[DYN] && array_of_callbacks[i].storage1 == i) seen++;
+                         VASSERTM(seen == 1 && op_done[DYN] == 0, "the newly posted request sits once in the array with its own callback record"); }
+#endif
+      VASSERTM(mpi_funnelled_last_active_req == NTOT - ncomp + posted, "the active count decreases by the number of completed dynamic requests (plus the newly posted one)");
+      VASSERTM(ret == nam + ncomp, "progress reports the number of callbacks it served");
+      check_arrays();
+      if (ncomp == 2 && rq_completions[req_of_tag[DYN - 1]] == 1 && rq_completions[req_of_tag[0]] == 1 && nam >= 1) VWITNESS("first and last dynamic request complete together with an AM receive, a pending one in between");
+      if (ncomp == DYN) VWITNESS("all dynamic requests complete at once");
+      if (ncomp == 0 && nam == 0) VWITNESS("nothing completes");
+    }
+    return 0;
+#else
+
     int total_am = 0;
     for (int step = 0; step < NSTEP; step++) {
         /* one-sided operations of this step */
@@ -325,8 +402,8 @@ int main(void)
             VASSUME(k < NOP);
             op_kind[k] = is_get ? K_IRECV : K_ISEND; n_op++;
             int rq_before = n_rq;
-            if (is_get) mpi_no_thread_get(&parsec_ce, &LREG, 0, &RREG, 0, 8, 1, os_cb, &op_kind[k], 0, NULL, 0);
-            else        mpi_no_thread_put(&parsec_ce, &LREG, 0, &RREG, 0, 8, 1, os_cb, &op_kind[k], 0, NULL, 0);
+            if (is_get) mpi_no_thread_get(&parsec_ce, &LREG, 0, &RREG, 0, 8, 1, os_cb, &op_kind[k], 0, rcb_none, 0);
+            else        mpi_no_thread_put(&parsec_ce, &LREG, 0, &RREG, 0, 8, 1, os_cb, &op_kind[k], 0, rcb_none, 0);
             (void)rq_before;
         }
         int before[NTAG]; for (int t = 0; t < NTAG; t++) before[t] = am_calls[t];
@@ -373,4 +450,5 @@ int main(void)
     VWITNESS("request arrays built");
 #endif
     return 0;
+#endif
 }
